@@ -262,16 +262,16 @@ pub proof fn lemma_imghdr_round_trip(h: ImageHeader, t: Seq<u8>, h2: ImageHeader
             lemma_le16_val(n);
             assert(hin[0] == le16(n)[0] && hin[1] == le16(n)[1] && hin[2] == 1 && hin[3] == format);
             assert(le16_val(hin) == n);
-            assert(hin.subrange(4, 4 + data@.len()) =~= data@);
-            assert(hin.skip(4 + data@.len()) =~= t);
+            assert(hin.subrange(4, 4 + data@.len() as int) =~= data@);
+            assert(hin.skip(4 + data@.len() as int) =~= t);
         }
         ImageHeader::Unknown { version, data } => {
             let n = (3 + data@.len()) as u16;
             lemma_le16_val(n);
             assert(hin[0] == le16(n)[0] && hin[1] == le16(n)[1] && hin[2] == version);
             assert(le16_val(hin) == n);
-            assert(hin.subrange(3, 3 + data@.len()) =~= data@);
-            assert(hin.skip(3 + data@.len()) =~= t);
+            assert(hin.subrange(3, 3 + data@.len() as int) =~= data@);
+            assert(hin.skip(3 + data@.len() as int) =~= t);
         }
     }
 }
